@@ -4,3 +4,4 @@ import BlackIt.Parse
 import BlackIt.Model.Snap
 import BlackIt.Model.SearchSpace
 import BlackIt.Model.Dedup
+import BlackIt.Model.Bandit
